@@ -49,3 +49,7 @@
 (define-fun b32norm ((s BSeq)) BSeq (upper (repad8 (trim s))))
 (define-fun b32ok ((s BSeq)) Bool (stdok (b32norm s)))
 (define-fun b32key ((s BSeq)) BSeq (stddec (b32norm s)))
+
+; ---- RFC 6287 ---------------------------------------------------------------
+(define-fun minq ((f Int)) Int (ite (or (= f 1) (= f 3) (= f 5)) 8 (ite (or (= f 2) (= f 4) (= f 6)) 10 0)))
+(define-fun padr ((s BSeq) (n Int)) BSeq (cat s (zeros (- n (len s)))))
